@@ -156,15 +156,71 @@ def make_user_gates(users):
     return out
 
 
+_USER_SUBCLASS = {}
+
+
+def _user_subclass():
+    """a user-defined Gate subclass: every instance carries its own matrix, all share the class name"""
+    if "cls" not in _USER_SUBCLASS:
+        from qutip import Qobj
+        from qutip_qip.operations import Gate
+
+        class UserSubGate(Gate):
+            def __init__(self, targets, matrix, **kwargs):
+                super().__init__(targets=targets, **kwargs)
+                self._matrix = np.asarray(matrix, dtype=complex)
+
+            def get_compact_qobj(self):
+                k = len(self.targets)
+                return Qobj(self._matrix, dims=[[2] * k, [2] * k])
+        _USER_SUBCLASS["cls"] = UserSubGate
+    return _USER_SUBCLASS["cls"]
+
+
+def make_gate_object(g):
+    """gate OBJECT built from a gate class of qutip_qip.operations (g['cls']), as a user writes CRX(controls=0, targets=1, arg_value=t)"""
+    import qutip_qip.operations as OPS
+    arg = g.get("arg")
+    if isinstance(arg, list):
+        arg = tuple(arg)
+    cls = g["cls"]
+    kw = {}
+    if g.get("targets") is not None:
+        kw["targets"] = list(g["targets"])
+    if g.get("controls") is not None:
+        kw["controls"] = list(g["controls"])
+    if arg is not None:
+        kw["arg_value"] = arg
+    if g.get("obj_name") is not None:
+        kw["name"] = g["obj_name"]
+    if cls == "UserSubGate":
+        return _user_subclass()(matrix=uncm(g["matrix"]), **kw)
+    if cls == "ControlledGate":
+        from qutip_qip.operations import gateclass as GC
+        return GC.ControlledGate(control_value=g["control_value"], target_gate=OPS.GATE_CLASS_MAP[g["target_gate"]], **kw)
+    return OPS.GATE_CLASS_MAP[cls](**kw)
+
+
 def build(case):
     from qutip_qip.circuit import QubitCircuit
     qc = QubitCircuit(case["N"], user_gates=make_user_gates(case.get("users")))
     for g in case["gates"]:
+        if g.get("cls"):
+            qc.add_gate(make_gate_object(g))
+            continue
         arg = g.get("arg")
         if isinstance(arg, list):
             arg = tuple(arg)
         qc.add_gate(g["name"], targets=g.get("targets"), controls=g.get("controls"), arg_value=arg)
     return qc
+
+
+def controlled_block(U, nc, cv):
+    """documented meaning of a controlled gate: U on the targets iff the controls (first listed = most significant) read cv"""
+    d = U.shape[0]
+    M = np.eye(d * 2 ** nc, dtype=complex)
+    M[cv * d:(cv + 1) * d, cv * d:(cv + 1) * d] = U
+    return M
 
 
 def gate_ops(case):
@@ -175,6 +231,12 @@ def gate_ops(case):
         qs = list(g.get("controls") or []) + list(g.get("targets") or [])
         if g["name"] == "GLOBALPHASE":
             ops.append((np.exp(1j * g["arg"]), []))
+        elif g.get("cls") == "UserSubGate":
+            ops.append((uncm(g["matrix"]), qs))
+        elif g.get("cls") == "ControlledGate":
+            ops.append((controlled_block(Q.np_gate(g["target_gate"], g.get("arg")), len(g["controls"]), g["control_value"]), qs))
+        elif g.get("cls"):
+            ops.append((Q.np_gate(g["cls"], g.get("arg")), qs))
         elif g["name"] in users:
             ops.append((user_matrix(users[g["name"]], g.get("arg")), qs))
         else:
@@ -188,6 +250,8 @@ def is_wellformed(case):
         qs = list(g.get("controls") or []) + list(g.get("targets") or [])
         if len(set(qs)) != len(qs) or any(q >= case["N"] or q < 0 for q in qs):
             return False
+        if g.get("cls") in ("UserSubGate", "ControlledGate"):
+            continue
         if g["name"] in users:
             u = users[g["name"]]
             if g.get("controls") is not None or u["form"] in ("fun2", "other"):
@@ -289,7 +353,8 @@ def run_paths(case, want_trace=None):
     rho /= np.trace(rho)
     X = rs.normal(size=(D, D)) + 1j * rs.normal(size=(D, D))
     E = apply_circuit(ops, N, np.eye(D))
-    if N <= 4 and all(g["name"] in Q.N_QUBITS or g["name"] == "GLOBALPHASE" for g in case["gates"]):
+    if N <= 4 and all((g["name"] in Q.N_QUBITS or g["name"] == "GLOBALPHASE") and g.get("cls") in (None, g["name"])
+                      for g in case["gates"]):
         E2 = Q.circuit_unitary([(g["name"], list(g.get("controls") or []) + list(g.get("targets") or []), g.get("arg"))
                                 for g in case["gates"]], N)
         assert maxdiff(E, E2) < 1e-9, "the two independent oracles disagree"
@@ -734,6 +799,66 @@ def gen_phase_circuit(rng):
                 paths=["kept", "step", "step_dm", "run_ket", "unitary"])
 
 
+ONE_CTRL = ["CRX", "CRY", "CRZ", "CX", "CY", "CS", "CT", "CNOT", "CZ", "CSIGN", "CPHASE"]
+
+
+def class_keys():
+    from qutip_qip.operations import GATE_CLASS_MAP
+    return sorted(k for k in GATE_CLASS_MAP if k in Q.N_QUBITS)
+
+
+def obj_gate(rng, N, cls, shared_arg):
+    """a gate description built from class `cls` (key of GATE_CLASS_MAP); parametrised gates take the circuit's shared angle"""
+    k = Q.N_QUBITS[cls]
+    nc = Q.N_CONTROLS.get(cls, 0)
+    qs = rng.sample(range(N), k)
+    npar = Q.N_PARAMS.get(cls, 0)
+    arg = None
+    if npar == 1:
+        arg = shared_arg
+    elif npar > 1:
+        arg = [shared_arg] * npar
+    return dict(name=cls, cls=cls, targets=qs[nc:], controls=(qs[:nc] if nc else None), arg=arg)
+
+
+def gen_object_circuit(rng, force=None):
+    """circuits whose gates are OBJECTS built from the gate classes (GATE_CLASS_MAP, ControlledGate, a user-defined Gate subclass),
+    with equal arg_value across gates and gates that share gate.name but have different matrices, mixed with gates added by name"""
+    N = rng.choice([2, 3, 3, 4])
+    keys = [c for c in class_keys() if Q.N_QUBITS[c] <= N]
+    shared = rng.choice([0.7, math.pi / 2, -1.3, 2.0])
+    gates = []
+    if force and Q.N_QUBITS[force] <= N:
+        gates.append(obj_gate(rng, N, force, shared))
+    n = rng.randint(2, 6)
+    while len(gates) < n:
+        r = rng.random()
+        if r < 0.40:
+            gates.append(obj_gate(rng, N, rng.choice(ONE_CTRL), shared))
+        elif r < 0.55:
+            nc = rng.choice([1, 1, 2]) if N >= 3 else 1
+            qs = rng.sample(range(N), nc + 1)
+            tg = rng.choice(["RX", "RY", "RZ", "X", "Y", "S", "T", "H"])
+            gates.append(dict(name="CTRL:" + tg, cls="ControlledGate", target_gate=tg, controls=qs[:nc], targets=qs[nc:],
+                              control_value=rng.randrange(2 ** nc), arg=(shared if tg in ("RX", "RY", "RZ") else None)))
+        elif r < 0.70:
+            k = rng.choice([1, 1, 2]) if N >= 2 else 1
+            rs = np.random.RandomState(rng.randrange(2 ** 31))
+            gates.append(dict(name="UserSubGate", cls="UserSubGate", targets=rng.sample(range(N), k), controls=None,
+                              matrix=cm(rand_unitary(rs, k)), arg=rng.choice([None, shared]),
+                              obj_name=rng.choice([None, None, "MYGATE"])))
+        elif r < 0.90:
+            gates.append(obj_gate(rng, N, rng.choice(keys), shared))
+        else:
+            name = rng.choice([c for c in LIB if Q.N_QUBITS[c] <= N])
+            g = placed(rng, name, rng.sample(range(N), Q.N_QUBITS[name]))
+            if Q.N_PARAMS.get(name, 0) == 1:
+                g["arg"] = shared
+            gates.append(g)
+    rng.shuffle(gates)
+    return dict(kind="circuit", N=N, gates=gates, users={}, seed=rng.randrange(2 ** 31))
+
+
 def gen_malformed(rng):
     N = rng.choice([2, 3])
     kind = rng.choice(["user_controls", "user_fun2", "user_other", "user_arity"])
@@ -1079,6 +1204,11 @@ def correspond(ctx):
         cases.append(gen_random_circuit(rng))
     for _ in range(ctx.n(40, 300)):
         cases.append(gen_phase_circuit(rng))
+    # gate OBJECTS built from the gate classes: every class of GATE_CLASS_MAP at least once per run, then random mixes
+    for cls in class_keys():
+        cases.append(gen_object_circuit(rng, force=cls))
+    for _ in range(ctx.n(60, 600)):
+        cases.append(gen_object_circuit(rng))
     for _ in range(ctx.n(25, 100)):
         cases.append(gen_malformed(rng))
     for _ in range(ctx.n(120, 800)):
@@ -1160,6 +1290,8 @@ def search(ctx, broken):
         cases.append(gen_random_circuit(rng))
     for _ in range(200):
         cases.append(gen_phase_circuit(rng))
+    for _ in range(300):
+        cases.append(gen_object_circuit(rng))
     for _ in range(40):
         cases.append(gen_gsp(rng, big=True))
     for _ in range(400):
